@@ -111,7 +111,7 @@ Print Assumptions refusal_iff_guard.
 
 (* every entry point with a dry-run flag: with the flag set no storage call site runs *)
 Theorem dry_run_commands_no_effect : forall e ao v pl,
-  has_dry e = true -> v "dry_run" = true ->
+  has_dry e = true -> v F_dry_run = true ->
   snd (run_entry (entry_facts e) ao v pl) = [].
 Proof. exact dry_run_commands_no_effect_lemma. Qed.
 Print Assumptions dry_run_commands_no_effect.
